@@ -9,6 +9,7 @@ CONSTANTS
 INVARIANT TypeOK
 INVARIANT RefPartial
 INVARIANT ImplAgrees
+INVARIANT NoMatchMultiDead
 INVARIANT StepsAreImplCall
 INVARIANT PublishReplay
 CHECK_DEADLOCK FALSE
